@@ -203,6 +203,81 @@ var (
 		}}
 )
 
+// Direct use of the disk.Cache API (the front end without a server), with a
+// context that is never cancelled: whatever a call leaves open stays open.
+var apiCtx = context.Background()
+
+func apiOutcome(rc io.ReadCloser, size int64, err error) outcome {
+	if rc != nil {
+		defer func() { _ = rc.Close() }()
+	}
+	if err != nil {
+		return outcome{class: "error", size: -1, detail: err.Error()}
+	}
+	if rc == nil {
+		return outcome{class: "miss", size: -1}
+	}
+	data, rerr := io.ReadAll(rc)
+	if rerr != nil {
+		return outcome{class: "error", size: -1, detail: "reading the returned stream: " + rerr.Error()}
+	}
+	return outcome{class: "hit", data: data, size: size}
+}
+
+var (
+	opAPIGet = &op{name: "api-get", target: "get", kind: cache.CAS, known: true, caches: true,
+		run: func(ctx context.Context, rg *rig, s *lib.Server, o *object) outcome {
+			return apiOutcome(s.Cache.Get(apiCtx, cache.CAS, o.hash, o.size(), 0))
+		}}
+	opAPIGetUnknown = &op{name: "api-get-size-unknown", target: "get", kind: cache.CAS, caches: true,
+		run: func(ctx context.Context, rg *rig, s *lib.Server, o *object) outcome {
+			return apiOutcome(s.Cache.Get(apiCtx, cache.CAS, o.hash, -1, 0))
+		}}
+	opAPIGetZstd = &op{name: "api-get-zstd", target: "get", kind: cache.CAS, known: true, caches: true,
+		run: func(ctx context.Context, rg *rig, s *lib.Server, o *object) outcome {
+			out := apiOutcome(s.Cache.GetZstd(apiCtx, o.hash, o.size(), 0))
+			sz := out.size
+			out = decodeZstd(out)
+			if out.size != -3 {
+				out.size = sz
+			}
+			return out
+		}}
+	opAPIGetAC = &op{name: "api-get-ac", target: "get", kind: cache.AC, caches: true,
+		run: func(ctx context.Context, rg *rig, s *lib.Server, o *object) outcome {
+			out := apiOutcome(s.Cache.Get(apiCtx, cache.AC, o.hash, -1, 0))
+			if out.class == "hit" {
+				ar := &pb.ActionResult{}
+				if e := proto.Unmarshal(out.data, ar); e != nil {
+					out.detail = "not an ActionResult: " + e.Error()
+				} else {
+					out.ar = ar
+				}
+			}
+			return out
+		}}
+	opAPIGetRAW = &op{name: "api-get-raw", target: "get", kind: cache.RAW, caches: true,
+		run: func(ctx context.Context, rg *rig, s *lib.Server, o *object) outcome {
+			return apiOutcome(s.Cache.Get(apiCtx, cache.RAW, o.hash, -1, 0))
+		}}
+	opAPIContains = &op{name: "api-contains", target: "contains", kind: cache.CAS, known: true,
+		run: func(ctx context.Context, rg *rig, s *lib.Server, o *object) outcome {
+			ok, size := s.Cache.Contains(apiCtx, cache.CAS, o.hash, o.size())
+			if !ok {
+				return outcome{class: "miss", size: -1}
+			}
+			return outcome{class: "hit", size: size}
+		}}
+	opAPIContainsRAW = &op{name: "api-contains-raw", target: "contains", kind: cache.RAW,
+		run: func(ctx context.Context, rg *rig, s *lib.Server, o *object) outcome {
+			ok, size := s.Cache.Contains(apiCtx, cache.RAW, o.hash, -1)
+			if !ok {
+				return outcome{class: "miss", size: -1}
+			}
+			return outcome{class: "hit", size: size}
+		}}
+)
+
 func batchRead(ctx context.Context, s *lib.Server, o *object, zstd bool) outcome {
 	req := &pb.BatchReadBlobsRequest{Digests: []*pb.Digest{digestOf(o)}}
 	if zstd {
@@ -299,20 +374,20 @@ func verifyHit(p *op, o *object, out outcome, sizeAware bool) (bool, string) {
 func getOps(kind cache.EntryKind) []*op {
 	switch kind {
 	case cache.CAS:
-		return []*op{opBSRead, opHTTPGetCAS, opBSReadZstd, opBatchRead, opHTTPGetCASZstd, opBatchReadZstd}
+		return []*op{opBSRead, opHTTPGetCAS, opAPIGet, opBSReadZstd, opAPIGetUnknown, opBatchRead, opHTTPGetCASZstd, opBatchReadZstd, opAPIGetZstd}
 	case cache.AC:
-		return []*op{opGRPCGetAC, opHTTPGetAC}
+		return []*op{opGRPCGetAC, opHTTPGetAC, opAPIGetAC}
 	default:
-		return []*op{opHTTPGetRAW}
+		return []*op{opHTTPGetRAW, opAPIGetRAW}
 	}
 }
 
 func containsOps(kind cache.EntryKind) []*op {
 	switch kind {
 	case cache.CAS:
-		return []*op{opFindMissing, opHeadCAS, opACDepsGRPC, opACDepsHTTP}
+		return []*op{opFindMissing, opHeadCAS, opACDepsGRPC, opAPIContains, opACDepsHTTP}
 	case cache.RAW:
-		return []*op{opHeadRAW}
+		return []*op{opHeadRAW, opAPIContainsRAW}
 	}
 	return nil
 }
